@@ -133,6 +133,13 @@ SMALL = [
     "def 0 { end; }\ndef 1 { hold; }\ndef 2 { return; }",
     "// leading comment\ndef 0 { /* inner */ a(); // trailing\n}\n/* unterminated",
     "def 0 { a('it\\'s', \"q\\\"q\", 'a\\nb', \"\"\"x\"\"\", '''y'''); }",
+    # position marks in parts of a statement that the compile handlers collect out of source order (for: body before step; switch:
+    # header after...): the ORDER of the recorded marks must not depend on where the line breaks are
+    "def 0 { for ($i = 0; $i < 3; s(Position<'step', 1, 2>);) { b(Position<'body', 3, 4>); } while ($i < 3) { c(Position<'wb', 5, 6>); } "
+    "switch (h(Position<'head', 7, 8>)) { case 1: d(Position<'case', 9, 10>); } for (i(Position<'init', 1.5, 2>); $i < 3; $i += 1;) { e(Position<'b2', 2, 2.5>); } }",
+    # quote characters at the very start / end of the text, in every position that takes a string
+    "def 0 { a(\"He said \\\"go\\\"\", 'the \\'gate\\'', '\"', \"'\", \"it's\", 'say \"x\"'); b({english=\"\\\"quoted\\\"\", german='\\'q\\''}); p(Position<'the \\'mark\\'', 1, 2>); "
+    "switch (message_SwitchMenu(0, 0)) { case menu(\"\\\"Yes\\\"\"): a(); break; } message_SwitchTalk (1) { case 1: \"\\\"t\\\"\" default: 'd\\'' } }",
     # decimals of every sign / whole-part shape in every position that takes an integer_like (and in position marks)
     "macro dm($a) { x($a, -2.25); }\n"
     "def 0 { x(-7.5, 30.125, -030.125, -1.0, 1.0, -0.5, -.5, .5, 0.5, -00.25, 007.5, -12.0050, 100.0, -100.0); x<actor -7.5>(1); y<object 7.5>(-3.75); "
@@ -578,6 +585,7 @@ def t_dec_zeros(toks, gaps):
 
 
 SIMPLE_BODY = re.compile(r"[^\\'\"\r\n\f]*")
+QUOTED_BODY = re.compile(r"""(?:[^\\\r\n\f]|\\['"])*""")  # no backslash except in front of a quote
 
 
 def t_quotes(toks, gaps):
@@ -586,6 +594,20 @@ def t_quotes(toks, gaps):
             continue
         single = ty == "STRING_LITERAL"
         body = tx[1:-1] if single else tx[3:-3]
+        if single and not SIMPLE_BODY.fullmatch(body) and QUOTED_BODY.fullmatch(body):
+            # a single-line body with quote characters (bare or escaped) and nothing else special: the same value in the other
+            # quote style - the delimiter escaped, the other quote bare (also at the very start / end of the text)
+            value = body.replace("\\'", "'").replace('\\"', '"')
+            prev = toks[i - 1][0] if i else "BOF"
+            where = {"IMPORT": "import", "OPEN_SHARP": "position-mark-name", "ASSIGN": "lang-string"}.get(prev, "value")
+            for name, q in (("sq", "'"), ("dq", '"')):
+                sp = q + value.replace(q, "\\" + q) + q
+                if sp == tx:
+                    continue
+                nt = list(toks)
+                nt[i] = ("STRING_LITERAL", sp)
+                yield ("quotes", f"{name}:{where}:text-with-quotes", nt, list(gaps))
+            continue
         if not SIMPLE_BODY.fullmatch(body):
             continue
         if not single and (body != body.strip(" \t") or body == ""):
